@@ -282,10 +282,10 @@ fn generated() -> Vec<Proj> {
     // omerc: variant x centre x azimuth x offsets
     for (var, vl) in [("", "variant A"), (" variant", "variant B")] {
         // (one centre next to the antimeridian: the domain straddles it)
-        for (latc, lonc) in [(4., 115.), (45., -86.), (-18.9, 46.437), (30., 10.), (-30., -60.), (-17., 178.)] {
+        for (latc, lonc) in [(4., 115.), (45., -86.), (-18.9, 46.437), (30., 10.), (-30., -60.), (-17., 178.), (0., 20.)] {
             for alpha in [53.3158, -30., 18.9, 90., 337.25556, 91., 135., 200., -90.] {
                 for (o, ol) in offs {
-                    let hl = if latc > 0. { "north" } else { "south" };
+                    let hl = if latc > 0. { "north" } else if latc == 0. { "equator" } else { "south" };
                     let al = if alpha == 90. { "alpha=90".to_string() } else if alpha == -90. { "alpha=-90".to_string() } else if alpha < 0. || alpha > 270. { "alpha west".to_string() } else if alpha > 180. { "alpha obtuse west".to_string() } else if false { "alpha west".to_string() } else if alpha > 90. { "alpha obtuse".to_string() } else { "alpha acute".to_string() };
                     let mut t = p("omerc", leak(format!("gen {vl} {hl} {al}{ol}")), &format!("omerc{var} latc={latc} lonc={lonc} alpha={alpha} gamma_c={alpha} k_0=0.9996{o}"), lonc, latc);
                     t.class = Class::Approximate;
